@@ -24,7 +24,7 @@ TOKEN = re.compile(r"""
 KEYWORDS = {'SELECT', 'FROM', 'WHERE', 'AND', 'OR', 'NOT', 'IS', 'NULL', 'ORDER', 'BY', 'ASC', 'DESC',
             'LIMIT', 'INSERT', 'INTO', 'VALUES', 'UPDATE', 'SET', 'DELETE', 'IN', 'BEGIN', 'IMMEDIATE',
             'COMMIT', 'ROLLBACK', 'PRAGMA', 'VACUUM', 'COUNT', 'MAX', 'SUM', 'COALESCE', 'REPLACE',
-            'IGNORE', 'CREATE', 'DROP', 'INDEX', 'TABLE', 'TRIGGER', 'IF', 'EXISTS', 'UNIQUE', 'ON'}
+            'IGNORE', 'CREATE', 'DROP', 'INDEX', 'TABLE', 'TRIGGER', 'IF', 'EXISTS', 'UNIQUE', 'ON', 'BETWEEN'}
 
 
 def tokenize(text):
@@ -122,6 +122,12 @@ class P:
             neg = self.accept('kw', 'NOT')
             self.expect('kw', 'NULL')
             return ('isnull', left, not neg)
+        if self.accept('kw', 'BETWEEN'):
+            # x BETWEEN a AND b  ==  a <= x AND x <= b (both bounds inclusive)
+            lo = self.arith()
+            self.expect('kw', 'AND')
+            hi = self.arith()
+            return ('and', ('cmp', '<=', lo, left), ('cmp', '<=', left, hi))
         tok = self.next()
         if tok[0] == 'op' and tok[1] in ('=', '<', '>', '<=', '>=', '<>', '!='):
             right = self.arith()
